@@ -13,7 +13,7 @@ func init() {
 	register(&propDef{
 		id: "C15",
 		meta: propMeta{
-			explanation: "Decides the cursor invariant and the selection provenance behind 'valid and round-robin fair': (R1) every store to loadBalancer.nextIndex is nextIndex % len(upstreams) under len != 0, a +1 that is renormalised in the same block before any read, or a reset to 0 under nextIndex >= len; every shrinking store to upstreams is followed on every path by that renormalisation or by a return under len == 0; upstreams[nextIndex] is read only under len != 0 - so 0 <= nextIndex < len whenever non-empty, and with a single +1 writer each of n members is returned once per n selections; (R2) Select returns lb.Next() of the balancer found under the parameter key, and a remote node only under allowRemote and a successful LookupEndpoint of the same key; both call sites pass !forwarded (C06.R1, run here); (R3) Remove reports 'now empty' exactly under len == 0, the manager deletes the balancer exactly on that report, Add never leaves a balancer empty - so Select never returns (nil, true); (R4) registry updates happen under the manager mutex and only through the manager (C05.R4/R5). Not decided: fairness across concurrent schedules beyond mutual exclusion.",
+			explanation: "Decides the cursor invariant and the selection provenance behind 'valid and round-robin fair': (R1) every store to loadBalancer.nextIndex is nextIndex % len(upstreams) under len != 0, a +1 that is renormalised in the same block before any read, or a reset to 0 under nextIndex >= len; every shrinking store to upstreams is followed on every path by that renormalisation or by a return under len == 0; upstreams[nextIndex] is read only under len != 0 - so 0 <= nextIndex < len whenever non-empty, and with a single +1 writer each of n members is returned once per n selections; (R2) Select returns lb.Next() of the balancer found under the parameter key, and a remote node only under allowRemote and a successful LookupEndpoint of the same key; both call sites pass !forwarded (C06.R1, run here); (R3) Remove reports 'now empty' exactly under len == 0, the manager deletes the balancer exactly on that report, Add never leaves a balancer empty - so Select never returns (nil, true); (R4) registry updates happen under the manager mutex and only through the manager (C05.R4/R5). Not decided: fairness across concurrent schedules beyond mutual exclusion. Second round: the C20 rule set (lock pairing on every path of Select) runs with this check.",
 			ruleText:    "obligation = one store / read / return / path class; distinct = distinct keys",
 			assumptions: []string{"loadBalancer objects are only reachable through LoadBalancedManager.localUpstreams under its mutex (C05.R5, C20)"},
 		},
@@ -33,7 +33,7 @@ func init() {
 	register(&propDef{
 		id: "C16",
 		meta: propMeta{
-			explanation: "Decides the structural clauses of 'registered exactly while connected; expiry ends connections', over every function that calls Manager.AddConn (role): (R1) each acquisition is immediately paired with its deferred release on the same operand with no return in between (AddConn/RemoveConn, addSession/removeSession, yamux.Server/sess.Close, websocket New/conn.Close); (R2) the accept loop repeats only when AcceptStreamWithContext returned no error - every error ends the handler, running the defers; (R3) the context given to the accept call is the server's cancellable context, replaced by WithDeadline(that context, token.Expiry) exactly on the paths where a token is present and its Expiry is non-zero, with its cancel deferred; Shutdown cancels the shared context on every path; ctx/cancel come from one WithCancel; (R4) the verifier sets Token.Expiry from the token's exp claim exactly when present and disconnect-on-expiry is not disabled, and the multi-tenant wrapper hands on the tenant verifier's token itself; (R5) session bookkeeping adds/removes exactly the given session, shedding only closes sessions; (R6) the registration arithmetic of C05 (its whole rule set runs with this check). Not decided: timing of the close relative to the expiry instant (yamux/context behaviour).",
+			explanation: "Decides the structural clauses of 'registered exactly while connected; expiry ends connections', over every function that calls Manager.AddConn (role): (R1) each acquisition is immediately paired with its deferred release on the same operand with no return in between (AddConn/RemoveConn, addSession/removeSession, yamux.Server/sess.Close, websocket New/conn.Close); (R2) the accept loop repeats only when AcceptStreamWithContext returned no error - every error ends the handler, running the defers; (R3) the context given to the accept call is the server's cancellable context, replaced by WithDeadline(that context, token.Expiry) exactly on the paths where a token is present and its Expiry is non-zero, with its cancel deferred; Shutdown cancels the shared context on every path; ctx/cancel come from one WithCancel; (R4) the verifier sets Token.Expiry from the token's exp claim exactly when present and disconnect-on-expiry is not disabled, and the multi-tenant wrapper hands on the tenant verifier's token itself; (R5) session bookkeeping adds/removes exactly the given session, shedding only closes sessions; (R6) the registration arithmetic of C05 (its whole rule set runs with this check). Not decided: timing of the close relative to the expiry instant (yamux/context behaviour). Second round: session bookkeeping primitives perform their effect on every path; (R8) error-arm rule over server/upstream and server/proxy.",
 			ruleText:    "obligation = one acquire/defer pair / loop edge / phi operand / store; distinct = distinct keys",
 			assumptions: []string{"context.WithDeadline cancels at the deadline and yamux AcceptStreamWithContext returns when its context is done (trusted libraries)", "deferred calls run on every exit including panics (Go semantics)"},
 		},
